@@ -23,6 +23,29 @@ theorem conventional_eq (p : Params α) (hours : Hours α) (env : Env α) :
 theorem noPolicy_not_excluded (p : Params α) : ¬ Gen.intExcluded (noPolicy p).policy = true := by
   simp [noPolicy, Gen.intExcluded]
 
+/-- **the conventional result carries no extreme flag** (all six entries): what "unchanged" means in
+    the theorems below therefore includes "unflagged" -/
+theorem conventional_unflagged (p : Params α) (hours : Hours α) (env : Env α) (c : PHours α)
+    (hc : conventional p hours env = .ok c) :
+    flagOf c.fajr = false ∧ flagOf c.shur = false ∧ flagOf c.dhuhr = false ∧
+    flagOf c.asr = false ∧ flagOf c.magh = false ∧ flagOf c.isha = false := by
+  rw [conventional_eq] at hc
+  have hg : Gen.intFlagRead = .mapOrFalse := by decide
+  obtain ⟨hf, hi⟩ := adjForInt_out (noPolicy p) _ c hg hc
+  have ho := adjForInt_others (noPolicy p) _ c hc
+  have cv : ∀ x : Option α, flagOf (x.map PH.conv) = false := flagOf_conv
+  refine ⟨?_, ?_, ?_, ?_, ?_, ?_⟩
+  · rw [hf]; unfold intFajrOut; split
+    · exact cv _
+    · simp only [Hours.toPH]; cases hours.shur <;> simp [flagOf_conv] <;> rfl
+  · rw [ho.1]; exact cv _
+  · rw [ho.2.1]; exact cv _
+  · rw [ho.2.2.1]; exact cv _
+  · rw [ho.2.2.2]; exact cv _
+  · rw [hi]; unfold intIshaOut; split
+    · exact cv _
+    · simp only [Hours.toPH]; cases hours.magh <;> simp [flagOf_conv] <;> rfl
+
 /-- the policies restricted to Fajr and Isha: all but None and the two "all prayers" variants -/
 def FajrIshaOnly (pol : Policy α) : Prop := pol.isNearLatAll = false ∧ pol.isGoodDayAll = false
 
@@ -158,13 +181,16 @@ theorem invalidOnly_identity_when_all_valid (p : Params α) (hours : Hours α) (
 /-- **in every result, a time not flagged extreme equals the conventional time** (all six hours,
     all 15 policies).  Contrapositive: a time that differs from the conventional one is flagged
     extreme.  Hypotheses: the interval-consuming policies are used with angle-based methods
-    (`ExclNoIntervals`, as the property quantifies), and under nearest-latitude "all prayers" the
-    substitute latitude has a Fajr/Isha (true for every substitute latitude the property
-    quantifies over). -/
+    (`ExclNoIntervals`, as the property quantifies), and - only when a Fajr (Isha) INTERVAL is set -
+    under nearest-latitude "all prayers" the substitute latitude has a Fajr (Isha): the interval
+    pass copies that entry's flag.  With the named methods this concerns the Isha of UmmAlQurra and
+    FixedIsha only, whose angle-0 Isha exists wherever the Sun sets; for angle-based methods the
+    theorem needs no such hypothesis (a substitute latitude of 60 degrees without a June Fajr is
+    covered). -/
 theorem unflagged_is_conventional (p : Params α) (hours : Hours α) (env : Env α) (r c : PHours α)
     (hex : ExclNoIntervals p)
-    (hNLf : ∀ l, p.policy = .NearestLatitudeAllPrayersAlways l → (env.nearLatHours l).fajr.isSome = true)
-    (hNLi : ∀ l, p.policy = .NearestLatitudeAllPrayersAlways l → (env.nearLatHours l).isha.isSome = true)
+    (hNLf : nonZero p.intFajr = true → ∀ l, p.policy = .NearestLatitudeAllPrayersAlways l → (env.nearLatHours l).fajr.isSome = true)
+    (hNLi : nonZero p.intIsha = true → ∀ l, p.policy = .NearestLatitudeAllPrayersAlways l → (env.nearLatHours l).isha.isSome = true)
     (hr : adjForExtLat p hours env = .ok r) (hc : conventional p hours env = .ok c) :
     UnflAll r c := by
   rw [conventional_eq] at hc
@@ -173,7 +199,6 @@ theorem unflagged_is_conventional (p : Params α) (hours : Hours α) (env : Env 
   · simp at hr
   · rename_i h1 hh1
     have hu := applyPolicy_unfl p _ _ env hh1
-    have hshape := applyPolicy_shape p hours h1 env hh1 hNLf hNLi
     have ro := adjForInt_others p h1 r hr
     have co := adjForInt_others _ _ c hc
     obtain ⟨rf, ri⟩ := adjForInt_out p h1 r flag_read_total hr
@@ -191,7 +216,8 @@ theorem unflagged_is_conventional (p : Params α) (hours : Hours α) (env : Env 
           | none => simp [hs] at hv
           | some x =>
             simp only [hs, Option.map_some, Option.some.injEq, PH.mk.injEq] at hv
-            rcases hshape with hso | ⟨hfl, _⟩
+            have hzt : nonZero p.intFajr = true := by simpa using hz
+            rcases applyPolicy_shape_fajr p hours h1 env hh1 (hNLf hzt) with hso | hfl
             · have := hso.1; rw [hs] at this
               simp only [← this, Option.map_some, Option.some.injEq, PH.mk.injEq]
               exact ⟨hv.1, by simp [Hours.toPH, flagOf_conv]⟩
@@ -212,7 +238,8 @@ theorem unflagged_is_conventional (p : Params α) (hours : Hours α) (env : Env 
           | none => simp [hs] at hv
           | some x =>
             simp only [hs, Option.map_some, Option.some.injEq, PH.mk.injEq] at hv
-            rcases hshape with hso | ⟨_, hfl⟩
+            have hzt : nonZero p.intIsha = true := by simpa using hz
+            rcases applyPolicy_shape_isha p hours h1 env hh1 (hNLi hzt) with hso | hfl
             · have := hso.2.2.2; rw [hs] at this
               simp only [← this, Option.map_some, Option.some.injEq, PH.mk.injEq]
               exact ⟨hv.1, by simp [Hours.toPH, flagOf_conv]⟩
@@ -266,8 +293,8 @@ theorem imsaak_unflagged_is_conventional (p : Params α) (hours : Hours α) (env
     (run : Params α → Except Panic (PHours α))
     (hrun : run (imsaakParams1 p) = adjForExtLat (imsaakParams1 p) hours env)
     (hex : ExclNoIntervals (imsaakParams1 p))
-    (hNLf : ∀ l, (imsaakParams1 p).policy = .NearestLatitudeAllPrayersAlways l → (env.nearLatHours l).fajr.isSome = true)
-    (hNLi : ∀ l, (imsaakParams1 p).policy = .NearestLatitudeAllPrayersAlways l → (env.nearLatHours l).isha.isSome = true)
+    (hNLf : nonZero (imsaakParams1 p).intFajr = true → ∀ l, (imsaakParams1 p).policy = .NearestLatitudeAllPrayersAlways l → (env.nearLatHours l).fajr.isSome = true)
+    (hNLi : nonZero (imsaakParams1 p).intIsha = true → ∀ l, (imsaakParams1 p).policy = .NearestLatitudeAllPrayersAlways l → (env.nearLatHours l).isha.isSome = true)
     (hc : conventional (imsaakParams1 p) hours env = .ok c)
     (h : imsaakOf p run = .ok (some t)) (hf : t.extreme = false) :
     optTime (imsaakParams1 p) .Fajr c.fajr = .ok (some t) := by
@@ -284,10 +311,11 @@ theorem imsaak_unflagged_is_conventional (p : Params α) (hours : Hours α) (env
     rw [this] at ht
     exact ht
 
--- non-vacuity: the six policies and the angle-based parameter sets meet the hypotheses
+-- non-vacuity: the six policies and the angle-based parameter sets meet the hypotheses - in the
+-- case the hypothesis is about (an interval-excluded policy with an angle-based method)
 example : isInvalidOnly (Policy.HalfOfNightFajrIshaInvalid : Policy α) = true := rfl
-example : ExclNoIntervals ({ (default : Params Float) with policy := .SeventhOfNightFajrIshaInvalid }) := by
-  intro h; simp [Gen.intExcluded] at h
+example : ExclNoIntervals ({ (paramsNew .Mwl : Params Float) with policy := .HalfOfNightFajrIshaInvalid }) := by
+  intro _; constructor <;> simp [paramsNew, nonZero, Gen.methodRow] <;> rfl
 
 -- non-vacuity: the 12 policies the theorem speaks about satisfy `FajrIshaOnly`
 example : FajrIshaOnly (Policy.SeventhOfNightFajrIshaInvalid : Policy α) := ⟨rfl, rfl⟩
